@@ -9,7 +9,7 @@ From CKC Require Import Base.Prelude Base.Reflect Base.SortN Base.Combs Spec.Lay
 From CKC Require Import Model.Card Model.Hands Model.Five Model.HandRank.
 From CKC Require Import Proofs.CardBase Proofs.SortFacts Proofs.CombFacts Proofs.BitFacts Proofs.FiveFacts
   Proofs.ShapeFacts Proofs.ValidReal Proofs.HandFacts Proofs.BestFacts.
-From CKC Require Export Proofs.FreeFacts.
+From CKC Require Export Proofs.FreeFacts Proofs.TablesValid.
 From CKC Require Import Gen.Consts Gen.Decks.
 Open Scope N_scope.
 
